@@ -75,6 +75,10 @@ func (g *gen) c11Base(hook bool) []Op {
 	nilrcv := strings.HasPrefix(spec.kind, "nil")
 	if nilrcv {
 		target = Val{K: spec.kind, ID: g.id()}
+	} else if g.chance(0.4) {
+		// the receiver is then the zero value of its (non-pointer) type: a
+		// genuine panic of its method must still be reported as a panic
+		target.ID = 0
 	}
 	dirv := g.pick(spec.verbs)
 	if strings.HasSuffix(dirv, "_") { // %T does not call methods; keep it out
